@@ -793,6 +793,11 @@ type c20Scenario struct {
 	Extra    cliTree  // files created by Prep (links), as the user sees them before the run
 	AliasDst []string // other names of a destination (links)
 	Mime     string   // --type given: the mimetype of every task
+	// Refuse: two sources map to one destination — the command must refuse before touching anything (exit 1, tree
+	// unchanged, no mutating system call). If it does not, SafeInv is judged with Intended (every user file must
+	// survive as the original or as its OWN complete output) after the run and at every kill point.
+	Refuse   bool
+	Intended cliTree
 }
 
 func (s *c20Scenario) cmdline() string {
@@ -1102,6 +1107,11 @@ func c20ErrorScenarios(rng *h.RNG) []c20Scenario {
 			Tasks: []c20Task{{Srcs: []string{"a.js"}, Dst: "o/out.js", Root: "."}}, Seq: true, Preserve: true, Lexical: true},
 		{Name: "minifier-error-bundle-onto-input", Tree: cliTree{"a.js": good, "b.js": bad}, Args: []string{"-b", "-o", "a.js", "a.js", "b.js"},
 			Tasks: []c20Task{{Srcs: []string{"a.js", "b.js"}, Dst: "a.js", Root: ".", Sep: ";\n"}}, Seq: true, Preserve: true, Lexical: true},
+		// the minifier fails late, after content it rewrites in place: the original bytes must be written
+		{Name: "minifier-error-late-inplace", Tree: cliTree{"a.html": c19LateFail(rng, "html")}, Args: []string{"-o", "a.html", "a.html"},
+			Tasks: []c20Task{{Srcs: []string{"a.html"}, Dst: "a.html", Root: "."}}, Seq: true, Preserve: true, Lexical: true},
+		{Name: "minifier-error-late-separate", Tree: cliTree{"a.xml": c19LateFail(rng, "xml")}, Args: []string{"-o", "o/out.xml", "a.xml"},
+			Tasks: []c20Task{{Srcs: []string{"a.xml"}, Dst: "o/out.xml", Root: "."}}, Seq: true, Preserve: true, Lexical: true},
 		// regressions of K-C20-1 / K-C20-2 / K-C19-1 (fixed by 3823c65, 44ee05b)
 		{Name: "regress-bak-input", Tree: cliTree{"a.css.bak": css}, Args: []string{"--type=css", "-o", "a.css", "a.css.bak"},
 			Tasks: []c20Task{{Srcs: []string{"a.css.bak"}, Dst: "a.css", Root: "."}}, Seq: true, Preserve: true, Lexical: true, Mime: "text/css"},
@@ -1121,6 +1131,50 @@ func c20ErrorScenarios(rng *h.RNG) []c20Scenario {
 			Tasks: []c20Task{{Srcs: []string{"a.css"}, Dst: "out.css", Root: "."}}, Seq: true, Preserve: true, Lexical: true,
 			Inject: []string{"write:error=ENOSPC"}, WriteErr: true},
 	}
+}
+
+// c20CollisionScenarios: two sources, one destination (regression of K-C19-2; seeded change C20-m5).
+func c20CollisionScenarios(rng *h.RNG) []c20Scenario {
+	var out []c20Scenario
+	for _, ext := range []string{"css", "js"} {
+		f := "style." + ext
+		own := c20Content(rng, ext, 400+rng.Intn(2000))
+		other := c20Content(rng, ext, 300+rng.Intn(2000))
+		ownOut, _ := cliLib(cliExtMap[ext], own)
+		th, ve := "theme/"+f, "vendor/"+f
+		tree := func() cliTree {
+			return cliTree{th: own, ve: other, "theme/keep.txt": []byte("keep"), "theme/sub/x." + ext: c20Content(rng, ext, 200)}
+		}
+		twoTasks := []c20Task{{Srcs: []string{th}, Dst: th, Root: "theme"}, {Srcs: []string{ve}, Dst: th, Root: "vendor"}}
+		intended := cliTree{th: ownOut}
+		for _, par := range []bool{false, true} {
+			v := []string{"-v"}
+			suffix := "-seq"
+			if par {
+				v, suffix = nil, "-par"
+			}
+			arg := func(a ...string) []string { return append(append([]string{}, v...), a...) }
+			out = append(out,
+				// one of the two is written in place
+				c20Scenario{Name: "collide-file-file-inplace" + suffix + "/" + ext, Tree: tree(), Args: arg("-o", "theme/", th, ve),
+					Tasks: twoTasks, Seq: !par, Refuse: true, Intended: intended, Inputs: []string{th, ve}},
+				c20Scenario{Name: "collide-file-file-inplace-reversed" + suffix + "/" + ext, Tree: tree(), Args: arg("-o", "theme/", ve, th),
+					Tasks: []c20Task{twoTasks[1], twoTasks[0]}, Seq: !par, Refuse: true, Intended: intended, Inputs: []string{th, ve}},
+				// a directory in place plus a file that maps onto one of its files
+				c20Scenario{Name: "collide-dir-file-inplace" + suffix + "/" + ext, Tree: tree(), Args: arg("-r", "-o", "theme/", "theme/", ve),
+					Tasks: []c20Task{{Srcs: []string{th}, Dst: th, Root: "theme"}, {Srcs: []string{"theme/sub/x." + ext}, Dst: "theme/sub/x." + ext, Root: "theme"}, twoTasks[1]},
+					Seq:   !par, Refuse: true, Intended: cliTree{th: ownOut}, Inputs: []string{th, ve, "theme/sub/x." + ext}},
+				// same base name from different directories into a fresh directory
+				c20Scenario{Name: "collide-file-file-outdir" + suffix + "/" + ext, Tree: tree(), Args: arg("-o", "out/", th, ve),
+					Tasks: []c20Task{{Srcs: []string{th}, Dst: "out/" + f, Root: "theme"}, {Srcs: []string{ve}, Dst: "out/" + f, Root: "vendor"}},
+					Seq:   !par, Refuse: true, Intended: cliTree{}, Inputs: []string{th, ve}},
+				c20Scenario{Name: "collide-dir-file-outdir" + suffix + "/" + ext, Tree: tree(), Args: arg("-r", "-o", "out/", "theme/", ve),
+					Tasks: []c20Task{{Srcs: []string{th}, Dst: "out/" + f, Root: "theme"}, {Srcs: []string{ve}, Dst: "out/" + f, Root: "vendor"}},
+					Seq:   !par, Refuse: true, Intended: cliTree{}, Inputs: []string{th, ve, "theme/sub/x." + ext}},
+			)
+		}
+	}
+	return out
 }
 
 // scenarios outside the lexical "same file" model: only the property is evaluated on the real directory
@@ -1150,6 +1204,7 @@ type c20Pending struct {
 	sc    *c20Scenario
 	what  string
 	want  string
+	want2 string
 	wantT cliTree
 	key   string
 	cfg   string
@@ -1253,8 +1308,27 @@ func (r *c20Runner) reference(st *h.Stage, sc *c20Scenario, run *cliRun) (*cliRu
 		r.intended = map[string]cliTree{}
 	}
 	r.intended[sc.Name] = c20Intended(sc)
+	if sc.Intended != nil {
+		r.intended[sc.Name] = sc.Intended
+	}
 	if ok, why := c20SafeInv(sc.orig(), run.Tree, r.intended[sc.Name], sc.inputs(), sc.dsts()); !ok {
 		r.addFail(h.Finding{Stage: st.Name, Kind: "fail", What: "after the complete run: " + why, Input: key, Config: "tree before: " + treeStr(sc.Tree), Impl: "tree after: " + treeStr(run.Tree)})
+	}
+	if sc.Refuse {
+		mut := 0
+		for _, o := range run.Ops {
+			switch o.Kind {
+			case "rename", "openTrunc", "write", "remove", "mkdir", "other":
+				mut++
+			}
+		}
+		same, why := treeEq(sc.orig(), run.Tree)
+		if run.Exit == 0 || mut > 0 || !same {
+			r.addDiff(h.Finding{Stage: st.Name, Kind: "diff", What: "two sources with one destination: the command must refuse before touching anything", Input: key,
+				Impl: fmt.Sprintf("exit %d, %d mutating system calls, %s; ops: %s", run.Exit, mut, why, strings.Join(opStrings(run.Ops), "; "))})
+		} else {
+			st.Tag("refused-before-touching-anything")
+		}
 	}
 	if !sc.Lexical {
 		// regression of K-C19-4 (fixed by 3823c65): no backup is left behind, whatever the spelling of the same file
@@ -1377,7 +1451,7 @@ func (r *c20Runner) compareWithModel(st *h.Stage, sc *c20Scenario, run *cliRun, 
 				lo, so = "0", "-"
 			}
 			r.ask(c20Req("model.c20.plan", tree, dirs, t, sc.Preserve, sc.Stdin, wok, chunks, h.HexS(lo), so),
-				c20Pending{kind: "plan", sc: sc, key: key, cfg: cfg, want: string(in) + "\x00" + string(outB)})
+				c20Pending{kind: "plan", sc: sc, key: key, cfg: cfg, want: string(in), want2: string(outB)})
 		}
 		r.ask(c20Req("model.c20.ops", tree, dirs, t, sc.Preserve, sc.Stdin, wok, chunks),
 			c20Pending{kind: "ops", sc: sc, key: key, cfg: cfg, want: strings.Join(perTask[i], "\n"), what: fmt.Sprint(i)})
@@ -1467,7 +1541,7 @@ func (r *c20Runner) flush(stage string) error {
 				r.addDiff(h.Finding{Stage: stage, Kind: "diff", What: "bad plan reply", Input: p.key, Config: p.cfg})
 				continue
 			}
-			w := strings.SplitN(p.want, "\x00", 2)
+			w := []string{p.want, p.want2}
 			if string(items[0]) != w[0] {
 				r.addDiff(h.Finding{Stage: stage, Kind: "diff", What: "bytes read by the task (inputBytes)", Input: p.key, Config: p.cfg, Impl: h.Q(c20clip([]byte(w[0]))), Model: h.Q(c20clip(items[0]))})
 			}
@@ -1985,6 +2059,7 @@ func init() {
 		}
 		all = append(all, c20ErrorScenarios(c.Rng.Fork())...)
 		all = append(all, c20AliasScenarios(c.Rng.Fork())...)
+		all = append(all, c20CollisionScenarios(c.Rng.Fork())...)
 		t0 := time.Now()
 		runs := make([]*cliRun, len(all))
 		rerrs := make([]error, len(all))
@@ -2053,6 +2128,7 @@ func init() {
 				case shape == "bundle-onto-last" && size == 4096 && parts[1] == "js":
 					want = true
 				case shape == "write-error-inplace", shape == "minifier-error-inplace", shape == "alias-absolute-dst", shape == "alias-symlink-src",
+					strings.HasPrefix(shape, "collide-"),
 					shape == "regress-bak-input", shape == "regress-bak-input-overwrite", shape == "regress-bak-exists", shape == "regress-bundle-bak-input":
 					want = true
 				case shape == "dir-inplace-par" && size == 4096 && parts[1] == "css":
